@@ -80,6 +80,122 @@ mod imp {
             _ => panic!("unknown kernel"),
         })
     }
+
+    // ---- caller buffers in non-canonical physical layouts (DESIGN 5.14) ----
+    use mc_adapt::outbuf::{set_fill_override, take_last_base, OutBuf};
+    use std::collections::VecDeque;
+
+    /// a NaN no kernel produces: the pre-fill of every cell of the backing storage
+    pub const SENTINEL_BITS: u64 = 0x7ff8_dead_beef_0001;
+    pub const LAYOUTS: [(&str, u8, u8); 5] = [
+        ("Array1 view, step 2", 0, 1),
+        ("Array1 reversed view", 0, 2),
+        ("Array1 view, step 3, offset 1", 0, 3),
+        ("VecDeque wrapped ring, head 3", 1, 1),
+        ("VecDeque wrapped ring, head len-1", 1, 2),
+    ];
+    pub const LAYOUT_ENTRIES: [&str; 8] = ["rolling_custom", "opt().rolling_custom", "rolling2_custom", "rolling_apply", "rolling_apply_idx", "rolling_custom_to", "vshift().write", "opt-iter.write"];
+
+    /// run `f` (which must go through `OutBuf::alt_run`) in audit mode; faults = slots of the caller's
+    /// view that were never written, cells of the backing storage outside the view that were written
+    pub fn audited<F: FnOnce() -> Vec<Cell>>(f: F) -> (Outcome<Vec<Cell>>, Vec<String>) {
+        set_fill_override(Some(f64::from_bits(SENTINEL_BITS)));
+        let out = catch(f);
+        let dump = take_last_base::<f64>();
+        set_fill_override::<f64>(None);
+        let mut faults = vec![];
+        if let (Outcome::Ok(_), Some(d)) = (&out, dump) {
+            for (i, c) in d.cells.iter().enumerate() {
+                let untouched = c.to_bits() == SENTINEL_BITS;
+                match d.lane.iter().position(|l| *l == i) {
+                    Some(slot) if untouched => faults.push(format!("slot {slot} of the caller's buffer was never written")),
+                    None if !untouched => faults.push(format!("cell {i} of the backing storage, outside the caller's view, was overwritten with {c}")),
+                    _ => {}
+                }
+            }
+        }
+        (out, faults)
+    }
+
+    fn cells_of(v: Vec<f64>) -> Vec<Cell> {
+        v.into_iter().map(Cell::f).collect()
+    }
+    fn fsum(it: impl Iterator<Item = Option<f64>>) -> f64 {
+        let mut s = 0.25;
+        for v in it {
+            s += v.map_or(100.0, |a| a + 1.0);
+        }
+        s
+    }
+
+    /// built-in rolling entry point into an alternative caller buffer
+    pub fn roll1_layout(f: R1, x: &[X], w: usize, mp: Option<usize>, container: u8, kind: u8) -> Vec<Cell> {
+        let data: Vec<f64> = enc_vec(x);
+        match (container, f) {
+            (0, R1::Fdiff(d)) => call_vfdiff::<Vec<f64>, f64, Array1<f64>, f64>(d, &data, w, mp, Path::BufAlt(kind)).cells(),
+            (0, _) => call_v1::<Vec<f64>, f64, Array1<f64>, f64>(f, &data, w, mp, Path::BufAlt(kind)).cells(),
+            (_, R1::Fdiff(d)) => call_vfdiff::<Vec<f64>, f64, VecDeque<f64>, f64>(d, &data, w, mp, Path::BufAlt(kind)).cells(),
+            (_, _) => call_v1::<Vec<f64>, f64, VecDeque<f64>, f64>(f, &data, w, mp, Path::BufAlt(kind)).cells(),
+        }
+    }
+    pub fn roll2_layout(f: R2, a: &[X], b: &[X], w: usize, mp: Option<usize>, container: u8, kind: u8) -> Vec<Cell> {
+        let (da, db): (Vec<f64>, Vec<f64>) = (enc_vec(a), enc_vec(b));
+        if container == 0 {
+            call_v2::<Vec<f64>, f64, Vec<f64>, f64, Array1<f64>, f64>(f, &da, &db, w, mp, Path::BufAlt(kind)).cells()
+        } else {
+            call_v2::<Vec<f64>, f64, Vec<f64>, f64, VecDeque<f64>, f64>(f, &da, &db, w, mp, Path::BufAlt(kind)).cells()
+        }
+    }
+
+    fn driver_into<O>(entry: usize, x: &[X], w: usize, kind: u8) -> Vec<Cell>
+    where
+        O: Vec1<f64> + OutBuf<f64>,
+    {
+        let data: Vec<f64> = enc_vec(x);
+        let other: Vec<f64> = data.iter().map(|v| if v.is_nan() { 1.0 } else { v * 2.0 + 1.0 }).collect();
+        let len = data.len();
+        let fill = || 0.0f64;
+        let vals = match entry {
+            0 => O::alt_run(len, kind, &fill, |out| {
+                let r: Option<O> = data.rolling_custom(w, |s: &[f64]| fsum(s.iter().map(|v| v.to_opt())), Some(out));
+                assert!(r.is_none());
+            }),
+            1 => O::alt_run(len, kind, &fill, |out| {
+                let r: Option<O> = data.opt().rolling_custom(w, |s: Vec<Option<f64>>| fsum(s.into_iter()), Some(out));
+                assert!(r.is_none());
+            }),
+            2 => O::alt_run(len, kind, &fill, |out| {
+                let r: Option<O> = data.rolling2_custom(&other, w, |a: &[f64], b: &[f64]| fsum(a.iter().chain(b.iter()).map(|v| v.to_opt())), Some(out));
+                assert!(r.is_none());
+            }),
+            3 => O::alt_run(len, kind, &fill, |out| {
+                let r: Option<O> = data.rolling_apply(w, |rm: Option<f64>, add: f64| fsum([rm, add.to_opt()].into_iter()), Some(out));
+                assert!(r.is_none());
+            }),
+            4 => O::alt_run(len, kind, &fill, |out| {
+                let r: Option<O> = data.rolling_apply_idx(w, |start: Option<usize>, end: usize, v: f64| fsum([start.map(|s| s as f64), Some(end as f64), v.to_opt()].into_iter()), Some(out));
+                assert!(r.is_none());
+            }),
+            5 => O::alt_run(len, kind, &fill, |out| {
+                data.rolling_custom_to::<O, f64, _>(w, |s: &[f64]| fsum(s.iter().map(|v| v.to_opt())), out);
+            }),
+            6 => O::alt_run(len, kind, &fill, |mut out| {
+                data.titer().vshift(w as i32, Some(7.5)).write(&mut out).unwrap();
+            }),
+            _ => O::alt_run(len, kind, &fill, |mut out| {
+                data.opt_iter_cast::<f64>().map(|v| v.map_or(-1.0, |a| a + w as f64)).write(&mut out).unwrap();
+            }),
+        };
+        cells_of(vals)
+    }
+    /// user-function drivers and iterator writes into an alternative caller buffer
+    pub fn driver_layout(entry: usize, x: &[X], w: usize, container: u8, kind: u8) -> Vec<Cell> {
+        if container == 0 {
+            driver_into::<Array1<f64>>(entry, x, w, kind)
+        } else {
+            driver_into::<VecDeque<f64>>(entry, x, w, kind)
+        }
+    }
 }
 use imp::*;
 
@@ -262,6 +378,68 @@ fn check_series(fam: &str, word: &[u8], x: Vec<X>, ctx: &mut Ctx) {
     }
 }
 
+/// caller buffers in non-canonical physical layouts: every slot of the caller's view written, no cell of the
+/// backing storage outside the view touched
+fn check_layouts(fam: &str, word: &[u8], x: &[X], ctx: &mut Ctx) {
+    let len = x.len();
+    ctx.fam(fam).states += 1;
+    ctx.nontrivial(fam, mix(hash_bytes(word), hash_u64s(&x.iter().map(|v| v.map_or(7, |a| a.to_bits())).collect::<Vec<_>>())));
+    let ws: Vec<usize> = if len > 8 { vec![1, 3, 17, len + 1] } else { vec![1, 2, len + 1] };
+    let second: Vec<X> = x.iter().map(|v| v.map(|a| a + 1.0).or(Some(1.0))).collect();
+    for (lname, container, kind) in LAYOUTS {
+        for &w in &ws {
+            let judge = |ctx: &mut Ctx, entry: String, mp: Option<usize>, res: (Outcome<Vec<Cell>>, Vec<String>)| {
+                let (out, faults) = res;
+                ctx.eval(fam, mix(outcome_hash(&out), hash_bytes(format!("{faults:?}").as_bytes())));
+                ctx.transitions += len as u64;
+                if faults.is_empty() {
+                    ctx.traces += 1;
+                } else {
+                    ctx.violation(Violation {
+                        entry: entry.clone(),
+                        finding: None,
+                        size: len * 100 + w,
+                        case: json!({"family": fam, "word": word, "series": json_word(x), "entry": entry, "w": w, "mp": mp_json(mp), "layout": lname}),
+                        expected: "every slot of the caller's view written, no cell outside the view touched".into(),
+                        got: format!("{}; outcome {}", truncate(&faults.join("; "), 300), truncate(&show_outcome(&out), 120)),
+                    });
+                }
+            };
+            for mp in [None, Some(1)] {
+                for &f in &valid_fns() {
+                    judge(ctx, r1_name(f, true), mp, audited(|| roll1_layout(f, x, w, mp, container, kind)));
+                }
+                for &f in &V2_ALL {
+                    judge(ctx, r2_name(f), mp, audited(|| roll2_layout(f, x, &second, w, mp, container, kind)));
+                }
+            }
+            for (e, ename) in LAYOUT_ENTRIES.iter().enumerate() {
+                judge(ctx, ename.to_string(), None, audited(|| driver_layout(e, x, w, container, kind)));
+            }
+        }
+    }
+}
+
+struct LayoutFam {
+    alpha: Vec<X>,
+    max_len: usize,
+}
+impl TreeSys for LayoutFam {
+    type Memo = ();
+    fn k(&self) -> usize {
+        self.alpha.len()
+    }
+    fn max_len(&self) -> usize {
+        self.max_len
+    }
+    fn name(&self) -> String {
+        "caller-layouts".into()
+    }
+    fn visit(&self, w: &[u8], _p: Option<&()>, ctx: &mut Ctx) {
+        check_layouts("caller-layouts", w, &decode(w, &self.alpha), ctx)
+    }
+}
+
 struct Fam {
     alpha: Vec<X>,
     max_len: usize,
@@ -291,7 +469,9 @@ fn main() {
             std::process::exit(2)
         });
         let mut ctx = Ctx::new();
-        if stored["case"]["family"] == "kernels-long" {
+        if stored["case"]["family"] == "caller-layouts" {
+            check_layouts("caller-layouts", &[], &word_from_json(&stored["case"]["series"]), &mut ctx);
+        } else if stored["case"]["family"] == "kernels-long" {
             check_series("kernels-long", &[], word_from_json(&stored["case"]["series"]), &mut ctx);
         } else {
             check_word(&syms_from_json(&stored["case"]["word"]), &fam.alpha, &mut ctx);
@@ -300,6 +480,16 @@ fn main() {
     }
     let mut total = explore_tree(&fam, run.threads);
     total.merge(kernels_long(!run.quick(), run.threads));
+    let lf = LayoutFam { alpha: vec![None, Some(0.0), Some(1.0)], max_len: run.pick(4, 6) };
+    total.merge(explore_tree(&lf, run.threads));
+    {
+        let lens: Vec<usize> = if run.quick() { vec![24] } else { vec![24, 40] };
+        let mut items: Vec<(String, Vec<X>)> = vec![];
+        for len in lens {
+            items.extend(rollcheck::structured_shapes(len, true).into_iter().enumerate().filter(|(i, _)| i % 6 == 0).map(|(_, s)| s));
+        }
+        total.merge(par_items(&items, run.threads, |(_l, x), ctx| check_layouts("caller-layouts", &[], x, ctx)));
+    }
     let meta = Meta {
         rule: "history tree of every word over {null,0,1,2}; at each word every rolling entry point (null-aware, plain, two-series), vrank, vpartition, varg_partition, vquantile, Spearman vcorr and half_life run (a) on an instrumented input container recording every uget / uslice and (b) on real Vec / Array1 inputs (fast paths), always into an instrumented output container recording every uset, via the returned and the caller-buffer path; windows 0..=len+3, every min_periods, k in 0..=len+2, second series of length len-1 / len / len+1. The same on long structured series (40 / 270 elements, windows 0, 1, 2, 16, 17, 255..257, len-1..len+3, k around 16 and len). Oracle (monitor): no recorded fault - no index >= len, no slice outside 0<=start<=end<=len, no write outside the buffer, every slot written exactly once at assume_init. Transitions = instrumented accesses observed. Non-trivial = distinct words.".into(),
         bounds: json!({"alphabet": json_word(&fam.alpha), "L": fam.max_len, "window": "0..=len+3", "k": "0..=len+2", "second_series_len": ["len-1", "len", "len+1"], "inputs": ["ProbeVec", "Vec", "Array1"], "paths": ["Ret", "Buf"]}),
